@@ -239,7 +239,9 @@ def run(chk):
             ts = [0, rng.randrange(3)] if rng.random() < 0.1 else [A.T0 - rng.randrange(1, 90000), rng.randrange(3)]
             if ts[0] == 0 and not any(k['t'] == 7 for k in extra):
                 extra.append(A.mk_blk(7, 3, A.enc(5)))
-            cases.append(mk_case(flags, rng.choice(RPTS + ['eid']), rng.choice(list(OUTCOMES)), ct=rng.choice([0, 1, 2]),
+            rpt = rng.choice(RPTS + ['eid'])
+            # (a CBOR null report-to under a primary CRC is rejected at the CRC gate: D20, C08's subject)
+            cases.append(mk_case(flags, rpt, rng.choice(list(OUTCOMES)), ct=0 if rpt == 'null' else rng.choice([0, 1, 2]),
                                  ts=ts, extra=extra, dwell=rng.choice([0, 0, 3, 1000]),
                                  plen=rng.choice([None, None, 1, 160, 700]), bct=rng.choice([0, 1, 2])))
     for i in range(0, len(cases), 200):
